@@ -136,6 +136,8 @@ def eq_events(rng, evs, n):
     for c in range(n):
         kind = c % 4
         sds = [(shapes_[int(rng.integers(0, len(shapes_)))], dtypes_[int(rng.integers(0, len(dtypes_)))]) for _ in range(3)]
+        if c % 2 == 0:
+            sds[c % 3] = ((2, 3), "float32")
         t1 = random_tree(rng, kind, sds)
         import jax
 
@@ -158,6 +160,19 @@ def eq_events(rng, evs, n):
             l3 = list(leaves)
             l3[j] = a.reshape(a.shape + (1,))
             pairs.append(("one_leaf_reshaped", t1, jax.tree_util.tree_unflatten(td, l3)))
+        if a.size:   # same elements under broadcasting, different shape: must not be equal
+            l4 = list(leaves)
+            l4[j] = a.reshape((1,) + a.shape)
+            pairs.append(("leading_axis_added", t1, jax.tree_util.tree_unflatten(td, l4)))
+        fl = [k for k, lf in enumerate(leaves) if np.issubdtype(np.asarray(lf).dtype, np.floating) and np.asarray(lf).size]
+        if fl:       # the smallest possible difference: one ulp in one element
+            k = fl[0]
+            b = np.array(leaves[k])
+            fb = b.reshape(-1)
+            fb[-1] = np.nextafter(fb[-1], b.dtype.type(np.inf))
+            l5 = list(leaves)
+            l5[k] = fb.reshape(b.shape)
+            pairs.append(("one_ulp_changed", t1, jax.tree_util.tree_unflatten(td, l5)))
         for why, x, y in pairs:
             for (p, q, sym) in ((x, y, False), (y, x, True)):
                 try:
